@@ -1122,6 +1122,12 @@ pub struct NameTree<T> {
 }
 impl<T: Object+DataSize> NameTree<T> {
     pub fn walk(&self, r: &impl Resolve, callback: &mut dyn FnMut(&PdfString, &T)) -> Result<(), PdfError> {
+        self.walk_limited(r, callback, 32, &mut std::collections::HashSet::new())
+    }
+    fn walk_limited(&self, r: &impl Resolve, callback: &mut dyn FnMut(&PdfString, &T), depth: usize, seen: &mut std::collections::HashSet<PlainRef>) -> Result<(), PdfError> {
+        if depth == 0 {
+            bail!("name tree depth exceeded");
+        }
         match self.node {
             NameTreeNode::Leaf(ref items) => {
                 for (name, val) in items {
@@ -1130,8 +1136,11 @@ impl<T: Object+DataSize> NameTree<T> {
             }
             NameTreeNode::Intermediate(ref items) => {
                 for &tree_ref in items {
+                    if !seen.insert(tree_ref.get_inner()) {
+                        bail!("name tree node {:?} is reachable twice", tree_ref.get_inner());
+                    }
                     let tree = r.get(tree_ref)?;
-                    tree.walk(r, callback)?;
+                    tree.walk_limited(r, callback, depth - 1, seen)?;
                 }
             }
         }
@@ -1288,6 +1297,12 @@ impl<T: ObjectWrite> ObjectWrite for NumberTree<T> {
 }
 impl<T: Object+DataSize> NumberTree<T> {
     pub fn walk(&self, r: &impl Resolve, callback: &mut dyn FnMut(i32, &T)) -> Result<(), PdfError> {
+        self.walk_limited(r, callback, 32, &mut std::collections::HashSet::new())
+    }
+    fn walk_limited(&self, r: &impl Resolve, callback: &mut dyn FnMut(i32, &T), depth: usize, seen: &mut std::collections::HashSet<PlainRef>) -> Result<(), PdfError> {
+        if depth == 0 {
+            bail!("number tree depth exceeded");
+        }
         match self.node {
             NumberTreeNode::Leaf(ref items) => {
                 for &(idx, ref val) in items {
@@ -1296,8 +1311,11 @@ impl<T: Object+DataSize> NumberTree<T> {
             }
             NumberTreeNode::Intermediate(ref items) => {
                 for &tree_ref in items {
+                    if !seen.insert(tree_ref.get_inner()) {
+                        bail!("number tree node {:?} is reachable twice", tree_ref.get_inner());
+                    }
                     let tree = r.get(tree_ref)?;
-                    tree.walk(r, callback)?;
+                    tree.walk_limited(r, callback, depth - 1, seen)?;
                 }
             }
         }
